@@ -121,10 +121,16 @@ impl<Read: ReadHalf> ReadConnection<Read> {
     {
         self.read_from_socket().await?;
 
-        let mut stream = Deserializer::from_slice(&self.buffer[self.msg_pos..]).into_iter::<M>();
-        let msg = stream.next();
-        let null_index = self.msg_pos + stream.byte_offset();
+        // The frame ends at its null terminator, wherever the JSON parser happens to stop.
+        let frame_len = self.buffer[self.msg_pos..self.read_pos]
+            .iter()
+            .position(|b| *b == b'\0')
+            .ok_or(crate::Error::UnexpectedEof)?;
+        let null_index = self.msg_pos + frame_len;
         let buffer = &self.buffer[self.msg_pos..null_index];
+        let mut deserializer = Deserializer::from_slice(buffer);
+        let msg =
+            M::deserialize(&mut deserializer).and_then(|msg| deserializer.end().map(|()| msg));
         if self.buffer[null_index + 1] == b'\0' {
             // This means we're reading the last message and can now reset the indices.
             self.read_pos = 0;
@@ -134,7 +140,7 @@ impl<Read: ReadHalf> ReadConnection<Read> {
         }
 
         match msg {
-            Some(Ok(msg)) => {
+            Ok(msg) => {
                 // SAFETY: Since the parsing from JSON already succeeded, we can be sure that the
                 // buffer contains a valid UTF-8 string.
                 trace!("connection {}: received a message: {}", self.id, unsafe {
@@ -142,8 +148,7 @@ impl<Read: ReadHalf> ReadConnection<Read> {
                 });
                 Ok(msg)
             }
-            Some(Err(e)) => Err(e.into()),
-            None => Err(crate::Error::UnexpectedEof),
+            Err(e) => Err(e.into()),
         }
     }
 
